@@ -139,6 +139,8 @@ def run_real(case, repo_mods):
     out = {"log": log, "err": err, "sizes": [t.storage_size() for t in w.tens]}
     cls = {}
     out["vals"] = [cls.setdefault((tuple(int(v) for v in t.values.flatten()),), len(cls)) for t in w.tens]
+    out["content"] = content_classes(w)
+    out["has_lut"] = [ps.lut_tensor is not None for ps in w.passes]
     out["lut_start"] = w.arch.shram_lut_address
     out["lut_size"] = w.arch.shram_lut_size
     out["reserved"] = w.arch.shram_reserved_unused_banks
@@ -171,3 +173,459 @@ def load_repo_mods():
                               mark_tensors=mark_tensors, nn_graph=nn_graph, operation=operation, pass_packing=pass_packing,
                               rewrite_graph=rewrite_graph, tensor=tensor, testutil=testutil)
     return m
+
+
+# ------------------------------------------------------------------------------------------------------------------
+# generators
+
+ACCS = ["Ethos_U55_32", "Ethos_U55_64", "Ethos_U55_128", "Ethos_U55_256", "Ethos_U65_256", "Ethos_U65_512"]
+N256 = [("u8x256", 256), ("i8x256", 256), ("i16x256", 512), ("i32x256", 1024)]
+N512 = [("u8x512", 512), ("i16x512", 1024), ("i32x512", 2048), ("u32x512", 2048)]
+BY_BYTES = {256: ["u8x256", "i8x256"], 512: ["i16x256", "u8x512"], 1024: ["i32x256", "i16x512"], 2048: ["i32x512", "u32x512"]}
+
+
+def _pick_size(rng, bias):
+    r = rng.random()
+    if bias == "narrow":
+        return 256 if r < 0.8 else rng.choice([512, 1024, 2048])
+    if bias == "wide":
+        return rng.choice([256, 256, 512, 1024, 1024, 2048, 2048])
+    return rng.choice([256, 256, 256, 512, 1024, 2048])
+
+
+def gen_tables(rng, n, nkeys, bias, eqbytes):
+    """n table objects over nkeys value keys. eqbytes: tables with equal values (same key and element count) get the same
+    element width, hence the same bytes; otherwise the width is free (the stream outside the hypothesis)."""
+    width = {}      # (key, elements) -> kind family (bytes)
+    tables = []
+    for _ in range(n):
+        key = rng.randrange(nkeys)
+        size = _pick_size(rng, bias)
+        kind = rng.choice(BY_BYTES[size])
+        nel = KINDS[kind][1]
+        if eqbytes:
+            size = width.setdefault((key, nel), size)
+            kinds = [k for k in BY_BYTES[size] if KINDS[k][1] == nel]
+            if not kinds:        # the recorded width of this (key, elements) class does not exist for that count: new key
+                key = nkeys + len(tables)
+                kinds = [kind]
+            kind = rng.choice(kinds)
+        tables.append([key, kind])
+    return tables
+
+
+def gen_shaped(rng, eqbytes=True, single=False, bias=None, acc=None):
+    """a stream of the shape the command-stream generator emits: per horizontal stripe of an operator its table DMA (if it
+    has a table), then its kernels (one per depth slice), weight DMAs in between; cascades interleave the stripes of their
+    operators. OrigOk by construction."""
+    bias = bias or rng.choice(["narrow", "wide", "any"])
+    npass = rng.randint(2, 9)
+    nkeys = rng.randint(1, 5)
+    tables = gen_tables(rng, npass, nkeys, bias, eqbytes)
+    passes = []
+    for p in range(npass):
+        r = rng.random()
+        if r < 0.22:
+            passes.append(None)
+        elif r < 0.30 and p > 0 and any(x is not None for x in passes):
+            passes.append(rng.choice([x for x in passes if x is not None]))     # the same tensor object under two operators
+        else:
+            passes.append(p)
+    cmds = []
+
+    def stripe_of(p):
+        if rng.random() < 0.25:
+            cmds.append(["other", p])
+        if passes[p] is not None:
+            cmds.append(["dma", p, passes[p]])
+        for _ in range(1 if rng.random() < 0.75 else 2):
+            if rng.random() < 0.3:
+                cmds.append(["other", p])
+            cmds.append(["stripe", p])
+
+    order = list(range(npass))
+    rng.shuffle(order)
+    i = 0
+    while i < len(order):
+        glen = 1 if (single or rng.random() < 0.5) else rng.randint(2, 4)
+        group = order[i:i + glen]
+        i += glen
+        for _h in range(1 if single else rng.choice([1, 1, 2, 2, 3])):
+            for p in group:
+                stripe_of(p)
+    if not single and rng.random() < 0.3:       # an operator seen again later (another subgraph position of the same pass)
+        stripe_of(rng.choice(order))
+    return {"acc": acc or rng.choice(ACCS), "tables": tables, "passes": passes, "cmds": cmds, "gen": "shaped"}
+
+
+def gen_soup(rng, eqbytes=True):
+    """any command in any order (kernels before the load of their table, DMAs of a table for a pass that reads another)"""
+    npass = rng.randint(1, 6)
+    ntab = rng.randint(1, 7)
+    tables = gen_tables(rng, ntab, rng.randint(1, 4), rng.choice(["narrow", "wide", "any"]), eqbytes)
+    passes = [None if rng.random() < 0.3 else rng.randrange(ntab) for _ in range(npass)]
+    cmds = []
+    for _ in range(rng.randint(1, 24)):
+        r = rng.random()
+        p = rng.randrange(npass)
+        if r < 0.45 and passes[p] is not None:      # (a table DMA for an operator without LUT activation cannot exist:
+            t = passes[p] if rng.random() < 0.8 else rng.randrange(ntab)   #  the pass writes to `activation.lut_index`)
+            cmds.append(["dma", p, t])
+        elif r < 0.9:
+            cmds.append(["stripe", p])
+        else:
+            cmds.append(["other", p])
+    return {"acc": rng.choice(ACCS), "tables": tables, "passes": passes, "cmds": cmds, "gen": "soup"}
+
+
+def gen_mixed_reuse(rng):
+    """the family that breaks an eviction rule which looks at start slots only: k narrow tables, a wide one over them,
+    then narrow tables again (new ones and equal ones under other tensor objects)"""
+    k = rng.randint(1, 8)
+    wide = rng.choice([512, 1024, 2048, 2048])
+    tables = [[i, rng.choice(BY_BYTES[256])] for i in range(k)]
+    tables.append([100, rng.choice(BY_BYTES[wide])])
+    extra = rng.randint(0, 2)
+    for j in range(extra):
+        tables.append([101 + j, rng.choice(BY_BYTES[rng.choice([512, 1024])])])
+    seq = list(range(k)) + [k] + [k + 1 + j for j in range(extra)]
+    # re-uses: the same values under new tensor objects
+    reuse = []
+    for _ in range(rng.randint(1, 5)):
+        src = rng.randrange(len(tables))
+        tables.append(list(tables[src]))
+        reuse.append(len(tables) - 1)
+    rng.shuffle(reuse)
+    if rng.random() < 0.5:
+        pos = rng.randint(0, len(seq))
+        seq = seq[:pos] + reuse[:1] + seq[pos:]
+        reuse = reuse[1:]
+    seq += reuse
+    passes = list(seq)
+    cmds = []
+    for p, t in enumerate(seq):
+        cmds += [["dma", p, t], ["stripe", p]]
+    if rng.random() < 0.3:
+        passes.append(None)
+        cmds.insert(rng.randrange(0, len(cmds) // 2 + 1) * 2, ["stripe", len(passes) - 1])
+    return {"acc": rng.choice(ACCS), "tables": tables, "passes": passes, "cmds": cmds, "gen": "mixed_reuse"}
+
+
+# ------------------------------------------------------------------------------------------------------------------
+# requests
+
+def content_classes(w):
+    cls = {}
+    return [cls.setdefault((t.values.tobytes(), str(t.values.dtype.itemsize)), len(cls)) for t in w.tens]
+
+
+def pass_request(case, real, content, pass_has_lut):
+    tabs = " ".join(f"{real['vals'][i]}:{real['sizes'][i]}:{content[i]}" for i in range(len(case["tables"])))
+    ps = " ".join(f"{1 if pass_has_lut[i] else 0}:{'-' if t is None else t}" for i, t in enumerate(case["passes"]))
+    cs = " ".join(f"d.{c[1]}.{c[2]}" if c[0] == "dma" else (f"s.{c[1]}" if c[0] == "stripe" else "o") for c in case["cmds"])
+    return f"lutpass {real['lut_start']} {real['lut_size']} {real['reserved']} T {tabs} P {ps} C {cs}"
+
+
+def spec_request(case, real, content, m):
+    acc = getattr(m.architecture_features.Accelerator, case["acc"]).value
+    kept = set(real["kept"])
+    dma = {i: (reg, a, n) for i, reg, a, n in real["dma"]}
+    evs = []
+    for i, c in enumerate(case["cmds"]):
+        if c[0] == "dma":
+            if i in kept:
+                reg, a, n = dma[i]
+                evs.append(f"l.{content[c[2]]}.{n}.{a}.{reg}")
+            else:
+                evs.append("n")
+        elif c[0] == "stripe":
+            t = case["passes"][c[1]]
+            if t is None:
+                evs.append("k")
+            else:
+                evs.append(f"u.{content[t]}.{real['sizes'][t]}.{real['npu_idx'][c[1]]}")
+        else:
+            evs.append("n")
+    return f"lutspec {acc} E " + " ".join(evs)
+
+
+def parse_pass_answer(a):
+    d = {"raw": a, "status": a.split(" ", 1)[0]}
+    for tok in a.split(" ")[1:]:
+        if "=" in tok:
+            k, v = tok.split("=", 1)
+            d[k] = v
+    d["loglines"] = [s.replace("_", " ") for s in d.get("log", "").split(";")] if d.get("log") else []
+    return d
+
+
+KEY_WIDTH = "lut-get-equivalent-ignores-element-width"
+KEY_REASSIGN = "lut-table-object-placed-again-repoints-earlier-commands"
+
+
+def run_stream(ck, m, n_cases):
+    """the pass-level stream. Returns (evaluations, nontrivial set)."""
+    rng = ck.rng
+    cases = []
+    # deterministic head: the two witnesses of Props/C03LutState and the streams of test_lut.py
+    cases.append({"acc": "Ethos_U55_128", "tables": [[7, "u8x256"], [7, "i32x256"]], "passes": [0, 1],
+                  "cmds": [["dma", 0, 0], ["stripe", 0], ["dma", 1, 1], ["stripe", 1]], "gen": "witness_sizes"})
+    cases.append({"acc": "Ethos_U55_128", "tables": [[1, "u8x256"], [2, "u8x256"], [3, "u32x512"]], "passes": [0, 1, 2],
+                  "cmds": [["dma", 0, 0], ["stripe", 0], ["dma", 1, 1], ["stripe", 1], ["dma", 0, 0], ["stripe", 0], ["dma", 2, 2],
+                           ["stripe", 2], ["dma", 1, 1], ["stripe", 1]], "gen": "witness_reassigned"})
+    for acc in ACCS:
+        t2k = [[0, "u8x256"], [1, "u8x256"], [2, "u8x256"], [1, "u8x256"], [2, "u8x256"], [5, "i32x512"], [6, "i32x512"], [1, "u8x256"]]
+        t1k = [[0, "u8x256"], [1, "u8x256"], [2, "i32x256"], [1, "u8x256"], [2, "i32x256"], [5, "i32x256"], [0, "u8x256"], [2, "i32x256"]]
+        for tb in (t2k, t1k):
+            cases.append({"acc": acc, "tables": tb, "passes": list(range(8)),
+                          "cmds": [x for p in range(8) for x in (["dma", p, p], ["stripe", p])], "gen": "test_lut"})
+    quota = [("shaped", 0.30), ("single", 0.15), ("mixed_reuse", 0.25), ("soup", 0.12), ("shaped_anywidth", 0.10), ("soup_anywidth", 0.08)]
+    for name, frac in quota:
+        for _ in range(int(n_cases * frac)):
+            if name == "shaped":
+                c = gen_shaped(rng)
+            elif name == "single":
+                c = gen_shaped(rng, single=True)
+            elif name == "mixed_reuse":
+                c = gen_mixed_reuse(rng)
+            elif name == "soup":
+                c = gen_soup(rng)
+            elif name == "shaped_anywidth":
+                c = gen_shaped(rng, eqbytes=False)
+            else:
+                c = gen_soup(rng, eqbytes=False)
+            c["gen"] = name
+            cases.append(c)
+    reals, reqs, specs = [], [], []
+    for c in cases:
+        r = run_real(c, m)
+        content, has_lut = r["content"], r["has_lut"]
+        reals.append(r)
+        reqs.append(pass_request(c, r, content, has_lut))
+        specs.append(spec_request(c, r, content, m) if r["err"] is None else None)
+    answers = ck.model(reqs + [s for s in specs if s is not None])
+    pa = [parse_pass_answer(a) for a in answers[:len(reqs)]]
+    sit = iter(answers[len(reqs):])
+    sa = [next(sit) if s is not None else None for s in specs]
+    nontrivial = set()
+    disagreements = []
+    found = 0
+    for c, r, a, s, rq, sq in zip(cases, reals, pa, sa, reqs, specs):
+        ck.count("lutstate_cases_" + c["gen"])
+        ck.count("lutstate_acc_" + c["acc"])
+        if a["status"] == "err:parse" or (s is not None and s == "err:parse"):
+            raise common_infra(f"lutstate request not understood by the Lean handler: {rq[:300]}")
+        real_log = list(r["log"]) + (["raise ValueError"] if r["err"] == "value" else [])
+        same_log = real_log == a["loglines"]
+        same_out = True
+        if r["err"] is None and a["status"] == "ok":
+            kept = ",".join(map(str, r["kept"]))
+            addr = ",".join("-" if x is None else str(x) for x in r["addr"])
+            # ActivationFunction.lut_index starts at 0 (operation.py): an operation the pass never wrote to has 0, the model '-'
+            midx = a["idx"].split(",") if a.get("idx") else []
+            idx_ok = len(midx) == len(r["idx"]) and all(
+                (x is None and mi == "-") or (x is not None and (mi == str(x) or (mi == "-" and x == 0))) for x, mi in zip(r["idx"], midx))
+            same_out = (kept == a.get("kept", "") and addr == a.get("addr", "") and idx_ok and r["npu_idx"] == r["idx"])
+        elif (r["err"] is None) != (a["status"] == "ok"):
+            same_out = False
+        agree = same_log and same_out
+        hyp = {k: a.get(k) for k in ("stable", "eqbytes", "origok", "agree", "sizes")}
+        ndrop = sum(1 for ln in real_log if ln.startswith("eq ") and not ln.endswith("-> -"))
+        nevict = 0
+        for ln in real_log:
+            if ln.startswith("put "):
+                before = ln.split("[", 1)[1].split("]", 1)[0].split()
+                after = ln.rsplit("[", 1)[1].rstrip("]").split()
+                nevict += len(before) + 1 - len(after)
+        sizes = {r["sizes"][cc[2]] for cc in c["cmds"] if cc[0] == "dma"}
+        if ndrop or nevict:
+            nontrivial.add(json_key(c))
+        ck.count("lutstate_dropped_dmas", ndrop)
+        ck.count("lutstate_evictions", nevict)
+        ck.count("lutstate_resets", sum(1 for ln in real_log[1:] if ln == "new") - sum(1 for ln in real_log if ln.startswith("put ")))
+        if len(sizes) > 1:
+            ck.count("lutstate_mixed_size_cases")
+        for k, v in hyp.items():
+            if v == "0":
+                ck.count("lutstate_hyp_false_" + k)
+        if all(hyp.get(k) == "1" for k in hyp):
+            ck.count("lutstate_all_hypotheses_hold")
+        spec_bad = s is not None and s != "ok"
+        replay = {"stream": "lutstate-pass", "case": c, "real_log": real_log, "real": {k: v for k, v in r.items() if k != "log"},
+                  "model_answer": a["raw"][:3000], "model_request": rq, "spec_request": sq, "spec_verdict": s,
+                  "how_to_replay": "harness/lutstate_lib.run_real(case, load_repo_mods()) runs the real lut.optimize_high_level_cmd_stream "
+                                   "on objects built from the repo's classes; the two requests go to lean/.lake/build/bin/drv"}
+        if spec_bad and hyp.get("origok") == "1":
+            ck.count("lutstate_spec_rejects_real_stream")
+            key = None
+            if agree and hyp.get("eqbytes") == "0":
+                key = KEY_WIDTH
+            elif agree and hyp.get("stable") == "0":
+                key = KEY_REASSIGN
+            what = ("table window (function level, lut.optimize_high_level_cmd_stream): the stream left by the pass reads wrong bytes: "
+                    + s[:400] + f" [generator {c['gen']}, {c['acc']}; model {'=' if agree else '!='} code]")
+            if ck.violation(what, replay, found_input=True, key=key):
+                found += 1
+        if agree and r["err"] is None and (a.get("spec") == "0") != (not spec_bad):
+            disagreements.append(("the Spec verdict on the model's final stream and on the real final stream differ although calls and "
+                                  "decisions agree (index / DMA destination programmed by high_level_command_to_npu_op?)", replay))
+        if not agree:
+            ck.count("lutstate_model_code_disagreements")
+            first = next((i for i, (x, y) in enumerate(zip(real_log, a["loglines"])) if x != y), min(len(real_log), len(a["loglines"])))
+            disagreements.append((f"Model/LutState != lut.py on a generated stream ({c['gen']}): call {first}: real "
+                                  f"'{real_log[first] if first < len(real_log) else '<end>'}' model "
+                                  f"'{a['loglines'][first] if first < len(a['loglines']) else '<end>'}'"
+                                  + ("" if same_log else "") + ("" if same_out else " (final addresses / indices / kept commands differ)"), replay))
+    return cases, disagreements, found, nontrivial
+
+
+def json_key(c):
+    import json
+    return json.dumps([c["acc"], c["tables"], c["passes"], c["cmds"]])
+
+
+def common_infra(msg):
+    import common
+    return common.InfraError(msg)
+
+
+# ------------------------------------------------------------------------------------------------------------------
+# method level: the real LUTState methods and get_lut_index on arbitrary lists (also overlapping / unaligned ones)
+
+def method_stream(ck, m, n_calls):
+    """-> (number of calls, disagreements [(what, replay)], found)"""
+    import uuid
+    rng = ck.rng
+    arch = m.architecture_features.create_default_arch(m.architecture_features.Accelerator.Ethos_U55_128)
+    start, stop = arch.shram_lut_address, arch.shram_lut_address + arch.shram_lut_size
+    kinds = list(KINDS)
+    pool = []       # (tensor, vals class, size)
+    cls = {}
+    case = {"acc": "Ethos_U55_128", "tables": [[k, kd] for k in range(4) for kd in kinds], "passes": [], "cmds": []}
+    w = realise(case, m)
+    for t in w.tens:
+        v = cls.setdefault(tuple(int(x) for x in t.values.flatten()), len(cls))
+        pool.append((t, v, t.storage_size()))
+
+    def place(t, a):
+        t.equivalence_id = uuid.uuid4()      # Tensor.address lives in a map keyed by the equivalence id
+        t.address = a
+
+    def fmt(entries):
+        return " ".join(f"{i}:{pool[i][1]}:{pool[i][2]}:{a}" for i, a in entries)
+
+    def rand_state(valid):
+        entries, used = [], []
+        for _ in range(rng.randint(0, 6)):
+            i = rng.randrange(len(pool))
+            if any(i == j for j, _ in entries):
+                continue
+            sz = pool[i][2]
+            if valid:
+                a = start + sz * rng.randrange(2048 // sz)
+                if any(a < b + s and b < a + sz for b, s in used) or any(pool[j][1] == pool[i][1] for j, _ in entries):
+                    continue
+                used.append((a, sz))
+            else:
+                a = rng.choice([start + 16 * rng.randrange(160), start + 256 * rng.randrange(8), rng.randrange(0, 30000)])
+            entries.append((i, a))
+        return entries
+
+    reqs, reals, meta = [], [], []
+    for _ in range(n_calls):
+        valid = rng.random() < 0.6
+        entries = rand_state(valid)
+        st = m.lut.LUTState()
+        for i, a in entries:
+            place(pool[i][0], a)
+        st.tensors = [pool[i][0] for i, _ in entries]
+        tid_of = {id(pool[i][0]): i for i, _ in entries}
+        r = rng.random()
+        if r < 0.25:
+            probe = rng.randrange(len(pool)) if not entries or rng.random() < 0.5 else rng.choice(
+                [j for j in range(len(pool)) if pool[j][1] in {pool[i][1] for i, _ in entries}])
+            res = st.get_equivalent(pool[probe][0])
+            reals.append("-" if res is None else str(tid_of[id(res)]))
+            reqs.append(f"luteq S {fmt(entries)} V {pool[probe][1]}")
+            meta.append(("get_equivalent", valid, entries, probe))
+        elif r < 0.55:
+            step = rng.choice([256, 256, 512, 1024, 2048, 2048, 16, 100, 0, 4096])
+            a0, a1 = (start, stop) if rng.random() < 0.8 else (rng.randrange(0, 3000), rng.randrange(0, 6000))
+            try:
+                res = str(st.find_best_address(a0, a1, step))
+            except ValueError:
+                res = "err:value"
+            reals.append(res)
+            reqs.append(f"lutfba S {fmt(entries)} A {a0} {a1} {step}")
+            meta.append(("find_best_address", valid, entries, (a0, a1, step)))
+        elif r < 0.9:
+            new = rng.choice([j for j in range(len(pool)) if all(j != i for i, _ in entries)])
+            sz = pool[new][2]
+            a = start + sz * rng.randrange(2048 // sz) if valid or rng.random() < 0.5 else rng.randrange(0, 30000)
+            place(pool[new][0], a)
+            res = st.put(pool[new][0])
+            tid_of[id(pool[new][0])] = new
+            reals.append(" ".join(f"{tid_of[id(t)]}@{t.address}" for t in res.tensors))
+            reqs.append(f"lutput S {fmt(entries)} N {new}:{pool[new][1]}:{sz}:{a}")
+            meta.append(("put", valid, entries, (new, a)))
+        else:
+            i = rng.randrange(len(pool))
+            sz = pool[i][2]
+            a = start + sz * rng.randrange(2048 // sz) if rng.random() < 0.7 else start + 256 * rng.randrange(-2, 12)
+            place(pool[i][0], a)
+            try:
+                res = str(m.lut.get_lut_index(arch, pool[i][0]))
+            except AssertionError:
+                res = "err:assert"
+            reals.append(res)
+            reqs.append(f"lutidx {start} {a} {sz}")
+            meta.append(("get_lut_index", True, [], (i, a)))
+    outs = ck.model(reqs)
+    disagreements, bad_puts = [], []
+    for rq, mo, re_, me in zip(reqs, outs, reals, meta):
+        ck.count("lutstate_method_" + me[0])
+        if mo != re_:
+            ck.count("lutstate_method_disagreements")
+            replay = {"stream": "lutstate-method", "method": me[0], "state": [[i, pool[i][1], pool[i][2], a] for i, a in me[2]],
+                      "argument": me[3], "real": re_, "model": mo, "request": rq}
+            disagreements.append((f"Model/LutState.{me[0]} != LUTState.{me[0]}: real '{re_}' model '{mo}' on {rq[:200]}", replay))
+            if me[0] == "put" and me[1]:
+                bad_puts.append((rq, re_, me, replay))
+    # failing-input search for `put`: the Spec-level property of the list it returns (no two tables share a byte) on the
+    # REAL result, for a disjoint list going in
+    found = 0
+    if bad_puts:
+        dreqs = []
+        for rq, re_, me, _ in bad_puts:
+            size_of = {i: pool[i][2] for i, _ in me[2]}
+            size_of[me[3][0]] = pool[me[3][0]][2]
+            ent = " ".join(f"{tok.split('@')[0]}:0:{size_of[int(tok.split('@')[0])]}:{tok.split('@')[1]}" for tok in re_.split())
+            dreqs.append("lutdisj S " + ent)
+        for (rq, re_, me, replay), verdict in zip(bad_puts, ck.model(dreqs)):
+            if verdict != "ok":
+                replay["spec_verdict"] = verdict
+                if ck.violation("LUTState.put on a list of disjoint tables returns a list in which two tables share bytes "
+                                f"(resident_tables_disjoint): {verdict[:200]}; list {rq[9:200]}", replay, found_input=True):
+                    found += 1
+    return len(reqs), disagreements, found
+
+
+def run_all(ck):
+    """both streams; records violations; -> dict of figures for the evidence"""
+    import common
+    common.setup_repo_path()
+    m = load_repo_mods()
+    n_pass = 12000 if ck.thorough else 1500
+    n_meth = 20000 if ck.thorough else 3000
+    cases, dis1, found1, nontrivial = run_stream(ck, m, n_pass)
+    ncalls, dis2, found2 = method_stream(ck, m, n_meth)
+    if (dis1 or dis2) and not (found1 or found2):
+        what, replay = (dis1 + dis2)[0]
+        ck.violation(f"{what} ({len(dis1) + len(dis2)} disagreements; the byte-level Spec accepts the real streams / lists of all of them)",
+                     replay, found_input=False)
+    elif dis1 or dis2:
+        ck.notes.append(f"lutstate: {len(dis1)} pass-level and {len(dis2)} method-level disagreements between Model/LutState and lut.py "
+                        f"(first: {(dis1 + dis2)[0][0][:200]})")
+    for c in cases[2:5]:
+        ck.sample({"lutstate_case": {k: c[k] for k in ("acc", "tables", "passes", "cmds")}})
+    return {"lutstate_cases": len(cases), "lutstate_method_calls": ncalls, "lutstate_nontrivial": len(nontrivial)}
